@@ -233,12 +233,18 @@ pub fn prove(pool: &Pool, sc: &Scenario) -> (Vec<Out<()>>, Out<Proof>) {
 }
 
 pub fn verify(pool: &Pool, sc: &Scenario, proof: &Proof, nonce: &Nonce) -> Out<bool> {
+    verify_reqs(pool, sc, &sc.reqs, proof, nonce)
+}
+
+/// as `verify`, with the verifier's sub-proof requests given separately (a verifier asking for
+/// something else than what the prover proved)
+pub fn verify_reqs(pool: &Pool, sc: &Scenario, reqs: &[ReqSpec], proof: &Proof, nonce: &Nonce) -> Out<bool> {
     guard(|| {
         let mut pv = Verifier::new_proof_verifier()?;
         for a in &sc.common {
             pv.add_common_attribute(a)?;
         }
-        for (h, r) in sc.held.iter().zip(sc.reqs.iter()) {
+        for (h, r) in sc.held.iter().zip(reqs.iter()) {
             let cd = pool.get(&h.cd_name);
             let req = r.build().map_err(|e| err_msg_s(&e))?;
             pv.add_sub_proof_request(&req, &cd.schema, &cd.non_schema, &cd.pk, None, None)?;
@@ -260,7 +266,12 @@ pub fn out_bool_json(o: &Out<bool>) -> Value {
 }
 
 pub fn verify_case(id: &str, pool: &Pool, sc: &Scenario, proof_json: &Value, nonce_dec: &str, implv: Value, class: Value) -> Value {
-    let creds: Vec<Value> = sc.held.iter().zip(sc.reqs.iter()).map(|(h, r)| cred_json(pool.get(&h.cd_name), r, false, false)).collect();
+    verify_case_reqs(id, pool, sc, &sc.reqs, proof_json, nonce_dec, implv, class)
+}
+
+#[allow(clippy::too_many_arguments)]
+pub fn verify_case_reqs(id: &str, pool: &Pool, sc: &Scenario, reqs: &[ReqSpec], proof_json: &Value, nonce_dec: &str, implv: Value, class: Value) -> Value {
+    let creds: Vec<Value> = sc.held.iter().zip(reqs.iter()).map(|(h, r)| cred_json(pool.get(&h.cd_name), r, false, false)).collect();
     json!({"id": id, "op": "verify",
            "in": {"backend": backend_str(), "mode": mode_str(), "common": sc.common, "creds": creds, "proof": proof_json, "nonce": nonce_dec},
            "impl": implv, "class": class})
@@ -440,21 +451,36 @@ fn gen_common(thorough: bool, rng: &mut Rng) -> Result<(), String> {
     let pool = Pool::load()?;
     let names: Vec<String> = pool.defs.iter().map(|(n, _)| n.clone()).collect();
     let n = if thorough { 160 } else { 14 };
-    for k in 0..n {
-        let ncred = 2 + rng.below(if thorough { 3 } else { 2 }) as usize;
-        let same_link = rng.chance(2, 3);
-        let same_age = rng.chance(1, 2);
-        let declare_age = rng.chance(1, 2);
+    // which credentials hold the first value (A) and which another one (B): every position of the
+    // odd one out, runs of equal values before a different one, two pairs
+    let patterns: Vec<&str> = vec!["AAB", "ABA", "BAA", "AABB", "AAAB", "ABAB", "AABA"];
+    for k in 0..n + 2 * patterns.len() {
+        // the pattern is applied to the link secret first, then (second round) to the declared attribute `age`
+        let forced: Option<&str> = if k >= n { Some(patterns[(k - n) % patterns.len()]) } else { None };
+        let on_age = k >= n + patterns.len();
+        let ncred = match forced { Some(p) => p.len(), None => 2 + rng.below(if thorough { 3 } else { 2 }) as usize };
+        let same_link = forced.is_none() && rng.chance(2, 3);
+        let same_age = rng.chance(1, 2) && !on_age;
+        let declare_age = rng.chance(1, 2) || on_age;
         let link0 = dec_of_hex(&rng.hex_bits(255));
+        let link_b = dec_of_hex(&rng.hex_bits(255));
         let age0 = int_value(rng).to_string();
+        let age_b = (age0.parse::<i64>().unwrap_or(0) / 2 + 7).to_string();
         let mut held = vec![];
         let mut reqs = vec![];
         for ci in 0..ncred {
             let name = rng.pick(&names).clone();
-            let link = if same_link || ci == 0 { link0.clone() } else { dec_of_hex(&rng.hex_bits(255)) };
+            let link = match forced {
+                Some(p) => if on_age || p.as_bytes()[ci] == b'A' { link0.clone() } else { link_b.clone() },
+                None => if same_link || ci == 0 { link0.clone() } else if rng.chance(1, 2) { link_b.clone() } else { dec_of_hex(&rng.hex_bits(255)) },
+            };
             let mut h = hold(&pool, &name, &link, rng)?;
             // every fixture schema has `age`: re-issue with the chosen value
-            let age = if same_age || ci == 0 { age0.clone() } else { int_value(rng).to_string() };
+            let age = match forced {
+                Some(p) if on_age => if p.as_bytes()[ci] == b'A' { age0.clone() } else { age_b.clone() },
+                Some(_) => age0.clone(),
+                None => if same_age || ci == 0 { age0.clone() } else { int_value(rng).to_string() },
+            };
             if h.known["age"] != age {
                 h.known.insert("age".into(), age);
                 h.cred = issue(pool.get(&name), &h.known, &h.hidden, "p", None)?;
@@ -479,7 +505,7 @@ fn gen_common(thorough: bool, rng: &mut Rng) -> Result<(), String> {
             o => return Err(format!("common: honest proof could not be built: {} {}", o.tag(), o.msg())),
         };
         let nonce_dec = sc.nonce.to_dec().unwrap_or_default();
-        let class = json!({"ncred": ncred, "links_equal": links_equal, "declare_age": declare_age, "ages_equal": ages_equal});
+        let class = json!({"ncred": ncred, "links_equal": links_equal, "declare_age": declare_age, "ages_equal": ages_equal, "pattern": forced});
         let v = verify(&pool, &sc, &proof, &sc.nonce);
         let mut oracles = vec![];
         if should_accept && !matches!(v, Out::Ok(true)) {
@@ -544,6 +570,48 @@ fn gen_common(thorough: bool, rng: &mut Rng) -> Result<(), String> {
             iv["oracles"] = json!(or);
             emit(&verify_case(&format!("common/{}/swap", k), &pool, &sc, &p3, &nonce_dec, iv, json!({"alteration":"subproofs swap"})));
         }
+    }
+    // (4) a dummy response: the verifier declares common an attribute that is NOT one of the hidden
+    //     exponents of a sub-proof (its schema lacks it / the sub-proof reveals it).  The holder proves
+    //     honestly with the link secret only and adds a copied entry to eq_proof.m of that sub-proof;
+    //     nothing ties that entry to the credential, so the proof must be rejected.
+    let nd = if thorough { 12 } else { 3 };
+    for k in 0..nd {
+        let link = dec_of_hex(&rng.hex_bits(255));
+        let lacking = k % 2 == 0;
+        let second = if lacking { "xyz_rev" } else { "pqr_norev" };
+        let h0 = hold(&pool, "gvt_rev", &link, rng)?;
+        let h1 = hold(&pool, second, &link, rng)?;
+        let mut r0 = random_request(&h0, rng, true);
+        r0.revealed.retain(|a| a != "name");
+        r0.predicates.retain(|p| p.attr != "name");
+        let mut r1 = random_request(&h1, rng, true);
+        if !lacking {
+            r1.predicates.retain(|p| p.attr != "name");
+            if !r1.revealed.contains(&"name".to_string()) { r1.revealed.push("name".to_string()); }
+        }
+        let mut sc = Scenario { held: vec![h0, h1], reqs: vec![r0, r1], common: vec!["master_secret".to_string()], nonce: new_nonce().map_err(|e| e.to_string())? };
+        let (_adds, proof) = prove(&pool, &sc);
+        let proof = match proof {
+            Out::Ok(p) => p,
+            o => return Err(format!("common/dummy: honest proof could not be built: {} {}", o.tag(), o.msg())),
+        };
+        let nonce_dec = sc.nonce.to_dec().unwrap_or_default();
+        let mut doc = jv(&proof);
+        let m0 = doc.pointer("/proofs/0/primary_proof/eq_proof/m/name").cloned().ok_or("common/dummy: no response for name in sub-proof 0")?;
+        doc.pointer_mut("/proofs/1/primary_proof/eq_proof/m").and_then(|m| m.as_object_mut()).ok_or("common/dummy: no m")?.insert("name".to_string(), m0);
+        sc.common.push("name".to_string());
+        let res = match from_jv::<Proof>(&doc) { Ok(p) => verify(&pool, &sc, &p, &sc.nonce), Err(e) => Out::Err(e) };
+        let mut or = vec![];
+        if matches!(res, Out::Ok(true)) {
+            or.push(json!({"name":"common_attribute_enforced","ok":false,"detail":format!(
+                "accepted although 'name' is declared common and sub-proof 1 ({}) {}: a response copied into eq_proof.m is not bound to the credential (dummy response)",
+                second, if lacking { "has no such attribute in its schema" } else { "reveals it (another value)" })}));
+        }
+        let mut iv = out_bool_json(&res);
+        iv["oracles"] = json!(or);
+        emit(&verify_case(&format!("common/dummy/{}", k), &pool, &sc, &doc, &nonce_dec, iv,
+            json!({"alteration":"dummy_mhat","kind": if lacking {"schema lacks the common attribute"} else {"sub-proof reveals the common attribute"}})));
     }
     Ok(())
 }
